@@ -123,7 +123,10 @@ def run(ch: Checker) -> None:
                     v = norm(sym.value(node.value, i))  # type: ignore[attr-defined]
                     facts = allfacts(p, i)
                     none_mode = [val for k, val in facts.items() if k.replace(' ', '') in ('verify_mode==ssl.VerifyMode.CERT_NONE', 'verify_mode==ssl.CERT_NONE')]
-                    if v == 'False':
+                    no_name = facts.get('hostname is None') is True or facts.get('hostname is not None') is False or facts.get('hostname') is False
+                    if v == 'False' and no_name:
+                        pass        # the value of `hostname is not None` on a path where no name was given
+                    elif v == 'False':
                         if not (none_mode and none_mode[-1] is True):
                             res['ch'] = ('ctx.check_hostname is switched off on a path where verify_mode == CERT_NONE was not established: the certificate chain is verified but not the name', p.describe())
                     elif v.replace(' ', '') not in ('hostnameisnotNone', 'True'):
@@ -250,28 +253,40 @@ def run(ch: Checker) -> None:
         def after(flag: str) -> Optional[str]:
             f = repr(flag)
             return el[el.index(f) + 1] if f in el and el.index(f) + 1 < len(el) else None
-        okc = after('-CA') == 'ca_crt_path' and after('-CAkey') == 'ca_key_path' and after('-extfile') == 'extension_path' and after('-in') == 'csr_path' and after('-out') == 'crt_path'
-        withs = [w for w in walk_no_nested(sc.node) if isinstance(w, ast.With) and 'ext_file(alt_subj_names' in norm(w.items[0].context_expr)]
+        # the extension file = whatever name `with ext_file(<alt names parameter>, ...) as X` binds
+        withs = [w for w in walk_no_nested(sc.node) if isinstance(w, ast.With) and isinstance(w.items[0].context_expr, ast.Call) and attr_chain(w.items[0].context_expr.func) == 'ext_file'
+                 and w.items[0].context_expr.args and norm(w.items[0].context_expr.args[0]) == 'alt_subj_names' and isinstance(w.items[0].optional_vars, ast.Name)]
+        ext_names = {w.items[0].optional_vars.id for w in withs}   # type: ignore[union-attr]
+        okc = after('-CA') == 'ca_crt_path' and after('-CAkey') == 'ca_key_path' and after('-extfile') in ext_names and after('-in') == 'csr_path' and after('-out') == 'crt_path'
         okc = okc and bool(withs)
     ch.check(okc, 'C11.5', sc, 'openssl x509 -req arguments', '-CA/-CAkey/-extfile/-in/-out carry the CA certificate, CA key, SAN extension file, CSR and output path',
              'sign_csr no longer places the CA certificate / key / SAN extension file at -CA / -CAkey / -extfile')
     guc = prog.own_method('HttpProxyPlugin', 'generate_upstream_certificate')
-    # isfile tests and the generation call must be inside `with self.lock`
-    locks = [w for w in walk_no_nested(guc.node) if isinstance(w, ast.With) and any(norm(it.context_expr) == 'self.lock' for it in w.items)]
-    inside = set()
-    for w in locks:
-        for n_ in ast.walk(w):
-            inside.add(id(n_))
+    # isfile tests and the generation call must happen with self.lock held (`with self.lock:` or acquire ... release), on every path
+    from .common import lock_held_steps
     outside = []
     gens = 0
-    for n_ in walk_no_nested(guc.node):
-        if isinstance(n_, ast.Call) and attr_chain(n_.func) in ('os.path.isfile', 'os.path.exists') and id(n_) not in inside:
-            outside.append('the cached-certificate test %s' % norm(n_))
-        if isinstance(n_, ast.Call) and attr_chain(n_.func) == 'self.gen_ca_signed_certificate':
-            gens += 1
-            if id(n_) not in inside:
-                outside.append('certificate generation')
-    ch.check(not outside and gens > 0 and bool(locks), 'C11.5', guc, 'lookup and generation under the lock', 'cached-certificate test and generation both inside `with self.lock`',
+    locked_any = False
+    for p in fpaths(cfg_of(guc, prog, exc_edges=False)):
+        ch.paths += 1
+        held = lock_held_steps(p, guc.node, 'self.lock')
+        for idx, nd, lab in p.executed():
+            if nd.ast is None or nd.kind not in ('stmt', 'test'):
+                continue
+            for n_ in walk_no_nested(nd.ast):
+                if isinstance(n_, ast.Call) and attr_chain(n_.func) in ('os.path.isfile', 'os.path.exists'):
+                    if not held.get(idx):
+                        outside.append('the cached-certificate test %s' % norm(n_))
+                    else:
+                        locked_any = True
+                if isinstance(n_, ast.Call) and attr_chain(n_.func) == 'self.gen_ca_signed_certificate':
+                    gens += 1
+                    if not held.get(idx):
+                        outside.append('certificate generation')
+                    else:
+                        locked_any = True
+    outside = sorted(set(outside))
+    ch.check(not outside and gens > 0 and locked_any, 'C11.5', guc, 'lookup and generation under the lock', 'cached-certificate test and generation both happen with self.lock held',
              '%s happens outside `with self.lock`: a second connection for the same host can see the half-written certificate file of a generation still in progress and hand it to its client'
              % ' and '.join(outside) if outside else 'no locked generation found')
     # the path returned (and tested / generated into) is a function of ca_cert_dir and the request host
